@@ -522,3 +522,8 @@ def c17_select_problem(doc, tags, pos, is_prev, res):
             if not (res[0] <= a < b <= res[1]):
                 return 'select_item_html range %r outside the tag %r' % ((a, b), res[:2])
     return None
+
+
+# a non-terminating implementation call must not block the check (see common.limited)
+import common as _common  # noqa: E402
+_common.limit_impl(globals(), ['impl_scan', 'impl_match', 'impl_outward', 'impl_inward', 'impl_attributes', 'impl_open_tag', 'impl_select', 'impl_token_list'])
